@@ -83,7 +83,7 @@ structure Match where
   nodes : List Nat                    -- ids of matched nodes, in binding order
   bindings : List (Nat × Option Name) -- pattern variable ↦ value
   outputs : List Name                 -- values bound to the pattern outputs
-  deriving Repr, Inhabited
+  deriving Repr, Inhabited, DecidableEq
 
 /-! ## Graph queries -/
 
@@ -215,7 +215,8 @@ def matchAt (g : Graph) (r : Rule) (node : Node) (ghost : List Name := []) : Opt
   | first :: others =>
     let cands := others.map fun pi =>
       match r.pat.nodes[pi]? with
-      | some pn => (g.nodes.filter fun n => n.domain == pn.domain && n.op == pn.op && n.overload == "").map fun n => (pi, n)
+      -- since 750cd8e the candidates are keyed by (domain, op_type) only: `NodePattern.matches` ignores the overload
+      | some pn => (g.nodes.filter fun n => n.domain == pn.domain && n.op == pn.op).map fun n => (pi, n)
       | none => []
     match (product ([(first, node)] :: cands)).findSome? (matchCombo g r ghost) with
     | none => none
@@ -558,8 +559,9 @@ def readsRemoved (matched : List Node) (outs : List Name) (newNodes : List Node)
   unsafeRemove matched outs newNodes ||
     newOutputs.any fun o => match o with | .existing x => interior.contains x | _ => false
 
-/-- Fix e8a0767: every returned value that is an input of the graph (or function) being rewritten
-is replaced by the output of a new `Identity` node reading it. -/
+/-- Fixes e8a0767, 1dc987d, aef7e04: every returned value that is one of the listed names (`routeNames`:
+inputs and outputs of the graph or function being rewritten, values of another graph) is replaced by
+the output of a new `Identity` node reading it. -/
 def addIdentities (inputs : List Name) : Nat → List NewOut → List Node × List NewOut
   | _, [] => ([], [])
   | base, .existing x :: rest =>
@@ -569,6 +571,18 @@ def addIdentities (inputs : List Name) : Nat → List NewOut → List Node × Li
     else ((addIdentities inputs base rest).1, .existing x :: (addIdentities inputs base rest).2)
   | base, .fresh t :: rest => ((addIdentities inputs base rest).1, .fresh t :: (addIdentities inputs base rest).2)
   | base, .none :: rest => ((addIdentities inputs base rest).1, .none :: (addIdentities inputs base rest).2)
+
+/-- Fix aef7e04: returned values that belong to *another* graph — an existing value that the graph
+being rewritten does not define (an outer-scope value seen from inside an If/Loop body). -/
+def foreignOuts (g : Graph) (outs : List NewOut) : List Name :=
+  outs.filterMap fun o => match o with
+    | .existing x => if g.defined.contains x then none else some x
+    | _ => none
+
+/-- `_must_route(v)`: graph input, graph output, or — when the container is a `Graph`, not a
+`Function` — a value of another graph. -/
+def routeNames (isFunc : Bool) (g : Graph) (outs : List NewOut) : List Name :=
+  g.inputs ++ g.outputs ++ (if isFunc then [] else foreignOuts g outs)
 
 /-! ## `try_rewrite` + the body of the rule loop -/
 
@@ -632,8 +646,9 @@ def tryRule (kind : Kind) (r : Rule) (st : PassSt) (lo : List (String × Nat)) (
             match res with
             | .error e => .error e
             | .ok (st, newNodes) =>
-              -- fixes e8a0767, 1dc987d: a returned graph input or graph output goes through an Identity node
-              let (idNodes, newOuts) := addIdentities (g.inputs ++ g.outputs) st.nextId δ.newOutputs
+              -- fixes e8a0767, 1dc987d, aef7e04: a returned graph input, graph output or value of another graph
+              -- goes through an Identity node
+              let (idNodes, newOuts) := addIdentities (routeNames (kind == .func) g δ.newOutputs) st.nextId δ.newOutputs
               let st := { st with nextId := st.nextId + idNodes.length }
               let newNodes := newNodes ++ idNodes
               let δ := { δ with newOutputs := newOuts }
